@@ -546,8 +546,10 @@ _api = [H("core_units", "api::" + n, t, timeout=to, mem=12, mode="nomem", doc=d)
     ("keyid_sid_44", "t", 1800, "KeyId<Secret>"), ("keyid_pid_44", "t", 1800, "KeyId<Public>"),
     ("key_fromstr_is_keytext_then_decode", "qt", 900, "Key::from_str = KeyText::from_str then V::decode on exactly the decoded bytes (header fixed, 4-char symbolic tail)"),
     ("keyid_roundtrip_eq_ord_hash", "t", 1800, "KeyId: FromStr(Display(id)) == id; Eq/Ord/Hash agree with the 33 bytes"),
-    ("keyid_hdr_cross_kind_sid", "qt", 1200, "KeyId<Secret>: every 33-byte id under the headers k4.lid. / k4.pid. / k3.sid. rejected, under k4.sid. accepted"),
-    ("keyid_hdr_cross_kind_lid", "t", 1200, "KeyId<Local>: ids under k4.sid. / k4.pid. / k3.lid. rejected"), ("keyid_hdr_cross_kind_pid", "t", 1200, "KeyId<Public>: ids under k4.lid. / k4.sid. / k3.pid. rejected"),
+    ("keyid_hdr_cross_sid_from_lid", "qt", 1200, "KeyId<Secret>: every 33-byte id under the header k4.lid. is rejected"),
+    ("keyid_hdr_cross_sid_from_pid", "t", 1200, "KeyId<Secret> rejects k4.pid."), ("keyid_hdr_cross_sid_from_k3", "t", 1200, "KeyId<Secret> (k4) rejects k3.sid."),
+    ("keyid_hdr_cross_lid_from_sid", "t", 1200, "KeyId<Local> rejects k4.sid."), ("keyid_hdr_cross_lid_from_pid", "t", 1200, "KeyId<Local> rejects k4.pid."),
+    ("keyid_hdr_cross_pid_from_lid", "t", 1200, "KeyId<Public> rejects k4.lid."), ("keyid_hdr_cross_pid_from_sid", "t", 1200, "KeyId<Public> rejects k4.sid."),
     ("keyid_hdr_kind_letter", "t", 1200, "KeyId<Secret>: symbolic kind letter, k4.?id.AAAA…: accepted iff ? == 's'"),
     ("token_shape_plain", "t", 600, "concrete companion: v4.local.AAAA accepted and re-serialised"), 
     ("token_shape_footer", "t", 600, "concrete: payload.footer"), ("token_shape_two_trailing_dots", "qt", 600, "concrete: payload.. rejected"),
@@ -667,7 +669,7 @@ for _h in PROPS["C04"].harnesses + PROPS["C09"].harnesses:
         keep = ("l0_" in n or any(n.endswith(x) for x in ("strict_n0", "strict_n2", "strict_n3", "strict_n4", "strict_n5", "strict_n6", "small_dst", "roundtrip_empty",
                 "roundtrip_n1", "roundtrip_n2", "roundtrip_n3", "roundtrip_n4", "agrees_n2", "agrees_n3", "keytext_local_t0", "keytext_local_t2", "keytext_local_t3",
                 "pie_local_t2", "pw_local_t2", "seal_t2", "token_shape_two_trailing_dots", "token_shape_footer_trailing_dot", "token_p2_nodot", "token_p2_dot_f1", "key_fromstr_is_keytext_then_decode", "l3_unseal_exact_p3_f0_a0",
-                "seal_hdr_t0", "token_hdr_p0_nodot")))
+                "seal_hdr_t0", "token_hdr_p0_nodot", "keyid_hdr_cross_sid_from_lid")))
         if not keep:
             _h.tiers = "t"
 
@@ -734,7 +736,7 @@ PROPS["C10"] = Prop(
     + [h for h in _collect("C06") if "relabel" in h.name],
     explanation="(i) every parser accepts only strings that start with exactly its own version and kind header followed by canonical base64url (the C09 API harnesses on fully symbolic strings); (ii) the header constants are pairwise distinct and prefix-free, and a symbolic 12-byte string is accepted by at most one of six parsers; (iii) key bytes of another kind's length are rejected (C08 length harnesses); (iv) an authenticated blob whose kind header is relabelled local<->secret fails to unwrap (C06 relabel classes).",
     functions=["paseto_core::key::{KeyType, SealingKey} constants", "every FromStr of paseto-core", "<backend>::HasKey::decode", "<backend>::{pie_unwrap_key, pw_unwrap_key}"],
-    bounds={"quick": "header table (prefix-freeness); every string of exactly header length for KeyText<Local>, SealedKey and SealedToken (symbolic header); v4 local key codec; v3/v4 PKE key wrong-length (32 B); v4 PIE relabel", "thorough": "symbolic-header strings for every parser; all backends' length and relabel harnesses that have a recorded pass (see harnesses_built_but_not_registered)"},
+    bounds={"quick": "header table (prefix-freeness); every string of exactly header length for KeyText<Local>, SealedKey and SealedToken (symbolic header); every 33-byte key id under the header k4.lid. offered to KeyId<Secret>; v4 local key codec; v3/v4 PKE key wrong-length (32 B); v4 PIE relabel", "thorough": "symbolic-header strings for every parser; KeyId: every id under each other kind's header and the sibling version's, and a symbolic kind letter over a concrete tail; all backends' length and relabel harnesses that have a recorded pass (see harnesses_built_but_not_registered)"},
     outside=["relabel to another version's header (the version prefix is a constant of the same MAC transcript)", "token purposes: local and public token payloads go to different key types, which the type system separates"],
     models=PROPS["C09"].models + L2_MODELS, assumptions=L2_ASSUME)
 
